@@ -204,6 +204,30 @@ fn clone_cell(rep: &Report, idx: usize, cell: &Cell, seed: u64) -> Option<String
                 let mut s = arch.model.parsed.header_checksum;
                 s[rng.usize_below(64)] ^= 1 << rng.below(8);
                 verify = Some(hex(&s));
+                // Half of the cells give a value of another length (1..128 hex digits, odd
+                // lengths included) with one wrong digit — often the last one. It is used
+                // only if it mismatches under both readings of a short value: as a prefix of
+                // the hex string, and as bytes after left-padding an odd length with "0"
+                // (what bita does today) compared over the common length.
+                if rng.chance(1, 2) {
+                    let full = hex(&arch.model.parsed.header_checksum);
+                    let l = if rng.chance(1, 2) { rng.urange(1, 9) } else { rng.urange(1, 128) };
+                    let mut digits: Vec<u8> = full.as_bytes()[..l].to_vec();
+                    let pos = if rng.chance(1, 2) { l - 1 } else { rng.usize_below(l) };
+                    let old = digits[pos];
+                    let mut new = old;
+                    while new == old {
+                        new = b"0123456789abcdef"[rng.usize_below(16)];
+                    }
+                    digits[pos] = new;
+                    let cand = String::from_utf8(digits).unwrap();
+                    let padded = if l % 2 == 1 { format!("0{}", cand) } else { cand.clone() };
+                    let bytes = crate::util::unhex(&padded);
+                    let as_bytes_differs = bytes[..] != arch.model.parsed.header_checksum[..bytes.len()];
+                    if !full.starts_with(&cand) && as_bytes_differs {
+                        verify = Some(cand);
+                    }
+                }
             }
             ArchKind::VerifyHeaderMatch => verify = Some(hex(&arch.model.parsed.header_checksum)),
             ArchKind::InvalidDictionary(k) => {
